@@ -29,11 +29,14 @@ try:
         ln = ln.strip()
         m = re.match(r"^cp\s+(.+?)\s+(\S+)\s*(#.*)?$", ln)
         if m:
-            src = os.path.join(seed, os.path.basename(m.group(1)))
-            dst = m.group(2)
-            if os.path.isdir(os.path.join(wt, dst)) or dst.endswith("/"):
-                dst = os.path.join(dst, os.path.basename(src))
-            copies.append((src, dst))
+            # one or several sources ("<this dir>/a_test.go <this dir>/b_test.go core/task/")
+            names = [os.path.basename(w) for w in m.group(1).split() if os.path.isfile(os.path.join(seed, os.path.basename(w)))]
+            for name in names:
+                src = os.path.join(seed, name)
+                dst = m.group(2)
+                if os.path.isdir(os.path.join(wt, dst)) or dst.endswith("/") or len(names) > 1:
+                    dst = os.path.join(dst, name)
+                copies.append((src, dst))
         elif cmd is None and re.match(r"^(go test|go run)\b", ln):
             cmd = ln
     res["demo_cmd"] = cmd
